@@ -1403,6 +1403,58 @@ theorem trenchBlock_depths {t : Tree} {f : Nat} (cfg : Cfg) (c : Col) (nbox i : 
   rw [trenchBlock_split] at herr ⊢
   exact h cs herr σ hP
 
+/-- `move_to([x, y, None])`: the stage keeps its depth -/
+theorem semF_moveToXY {t : Tree} {fuel : Nat} {p : String} {ld : Bool} {z : Rat} (cfg : Cfg) (x y sp : Option Rat) :
+    Sem t fuel (InvF t p ld z) (InvF t p ld z) (moveToR cfg x y none sp) := by
+  intro cs herr σ hP
+  unfold moveToR moveTo at herr ⊢
+  cases hf : formatArgs cfg.digits x y none (some (sp.getD cfg.speedPos)) with
+  | error e => rw [hf] at herr; simp at herr
+  | ok w =>
+    simp only [seq]
+    have hwz : w.z = none ∧ w.zvar = none := by
+      unfold formatArgs at hf
+      simp only at hf
+      split at hf
+      · cases hf
+      · injection hf with hf; subst hf; exact ⟨rfl, rfl⟩
+    have h1 : InvF t p ld z (execStmtsG (stepT t fuel) (closeIfOpen cfg cs).1 σ).1 := by
+      have := semF_shutter (t := t) (fuel := fuel) (p := p) (ld := ld) (z := z) cfg false cs rfl σ hP
+      unfold closeIfOpen
+      split
+      · simpa [shutterR, Res.ofOut] using this
+      · simpa [execStmtsG] using hP
+    rw [execStmtsG_append, execStmtsG_append, execStmtsG_append]
+    set σ1 := (execStmtsG (stepT t fuel) (closeIfOpen cfg cs).1 σ).1
+    have h2 : InvF t p ld z (execStmtsG (stepT t fuel) (emit [Instr.g1 w]) σ1).1 := by
+      simp only [emit, List.map_cons, List.map_nil, execStmtsG, execStmtG]
+      rw [stepT_flat t fuel σ1 _ (by intro q hq; cases hq) (by intro k q hq; cases hq)]
+      refine ⟨h1.abs, h1.ldd, ?_⟩
+      simp only [stepFlat, step, zTarget, hwz.2, hwz.1, axisTarget_none]
+      exact h1.posz
+    have h3 := semF_dwell (t := t) (fuel := fuel) (p := p) (ld := ld) (z := z) cfg.longPause (closeIfOpen cfg cs).2 rfl _ h2
+    simp only [dwellR, Res.ofOut] at h3
+    exact calmF_emit t fuel p ld z [.blank] (by intro i hi; simp at hi; subst hi; rfl) _ h3
+
+theorem semF_comment {t : Tree} {fuel : Nat} {p : String} {ld : Bool} {z : Rat} (b : Bool) :
+    Sem t fuel (InvF t p ld z) (InvF t p ld z) (fun cs => Res.ofOut (comment b cs)) :=
+  semF_calm _ (fun cs => by
+    unfold comment; cases b
+    · exact ⟨[.blank], rfl, by intro i hi; simp at hi; subst hi; rfl⟩
+    · exact ⟨[.blank, .comment "; user comment"], rfl, by intro i hi; simp at hi; rcases hi with rfl | rfl <;> rfl⟩)
+
+/-- **a bed block of a U-trench call file keeps the depth**: positioned in x / y only, its bed program — loaded and bound to an
+x / y-only leaf — is called at the depth the stage already has (the depth at which the last floor was cut), and the block ends there -/
+theorem bedBlock_keeps_depth {t : Tree} {f : Nat} (cfg : Cfg) (c : Col) (k : Nat) (xy : Rat × Rat) (z : Rat)
+    (hin : InTree t (inCol c (bedName k)) (bedName k)) :
+    Sem t (f + 1) (InvF t (bedName k) false z) (InvF t (bedName k) false z) (bedBlock cfg c k xy) := by
+  unfold bedBlock
+  exact Sem.andThen (Sem.andThen (Sem.andThen (Sem.andThen (Sem.andThen (Sem.andThen (Sem.andThen (Sem.andThen (Sem.andThen (Sem.andThen
+    (semF_comment (t := t) (fuel := f + 1) (p := bedName k) (ld := false) (z := z) true)
+    (semF_shutter cfg false)) (semF_load (f := f) hin)) semF_msg) (semF_uMove cfg (c.u.map (·.2)) true))
+    (semF_moveToXY cfg _ _ _)) (semF_shutter cfg true)) (semF_farcall (f := f) cfg)) (semF_shutter cfg false))
+    (semF_uMove cfg (c.u.map (·.1)) false)) (semF_remove (bedName k) 2)
+
 /-! ### the leaf files (`export_array2d`) -/
 
 theorem leafLine_xy (cfg : Cfg) (xy : Rat × Rat) (f : Option Rat) (g9 : Bool) (i : Instr) (h : leafLine cfg xy f g9 = .ok i) :
